@@ -70,7 +70,7 @@ func (u *Unit) failure(st *State, what string, f *Term) {
 		// the function may panic: record the panic exit, checked against panics-iff
 		ps := st.clone()
 		ps.Assume(f)
-		u.exits = append(u.exits, &Exit{st: ps, panic: true, note: label})
+		u.exits = append(u.exits, &Exit{st: ps, panic: true, note: label, runtime: true})
 	} else {
 		u.oblige(st, "no-panic", "no-panic:"+label, u.fnProps(), Not(f))
 	}
